@@ -60,7 +60,20 @@ func c04ScriptedDownload(e *Env) {
 	tr := []string{TrUDP, TrTCP, TrDTLS}[t.Weighted(3, 2, 1)]
 	szx := blockwise.SZX(t.Choose(3)) // 16, 32, 64 byte blocks: many blocks, small bodies
 	bs := 16 << uint(szx)
-	w := c04World(e, tr, szx, nil)
+	// whatever the connection hands to the application outside the call: nothing should ever get here
+	var strays []*RespInfo
+	router := mux.NewRouter()
+	router.DefaultHandle(mux.HandlerFunc(func(_ mux.ResponseWriter, r *mux.Message) {
+		if r.Code() == codes.Empty {
+			return
+		}
+		ri := Snapshot(r.Message)
+		e.mu.Lock()
+		strays = append(strays, ri)
+		e.mu.Unlock()
+		e.Notef("the connection's handler got %s", ri)
+	}))
+	w := c04World(e, tr, szx, router)
 	if w == nil {
 		return
 	}
@@ -70,6 +83,11 @@ func c04ScriptedDownload(e *Env) {
 	etag1, etag2 := []byte{0xa1}, []byte{0xa2}
 	e.Logf("cfg transport=%s block=%d size(v1)=%d size(v2)=%d", tr, bs, len(v1), len(v2))
 	e.NonTrivial()
+	// the request is a GET, or a POST with a small body of its own (the response is block-wise either way)
+	withBody := t.Chance(1, 2)
+	reqBody := []byte("query-body")[:1+t.Choose(10)]
+	var call *Call
+	callDone := func() bool { return call != nil && call.Done() }
 	cur, etag := v1, etag1
 	switched := false
 	served := 0
@@ -78,8 +96,13 @@ func c04ScriptedDownload(e *Env) {
 		if IsDatagram(tr) && (m.Type == TACK || m.Type == TRST) {
 			return
 		}
-		if m.Code != 1 {
+		if m.Code != 1 && m.Code != 2 {
 			return
+		}
+		if b2, ok := m.OptUint(OptBlock2); withBody && m.Code == 2 && (!ok || b2>>4 == 0) && !bytes.Equal(m.Payload, reqBody) {
+			// a request for the first block of the response is a (re)start of the exchange: the server runs the
+			// method on what it carries. Without the payload the application on the other side is handed a truncated body.
+			e.Violate("C04.R1", "request-repeated-without-its-body:scripted-download", "a POST for block 0 of the response went out with %d payload bytes, the application supplied %d (after the call returned: %v)", len(m.Payload), len(reqBody), callDone())
 		}
 		num, sz := uint32(0), uint32(szx)
 		if b2, ok := m.OptUint(OptBlock2); ok {
@@ -142,8 +165,13 @@ func c04ScriptedDownload(e *Env) {
 		it.NoDrop = true
 	}
 	w.DupW = t.Choose(2)
-	call := e.NewCall("download", 0, nil, 60*time.Second)
-	e.Start(call, func(ctx context.Context) (*pool.Message, error) { return w.API.Get(ctx, "/big") }, w.API.ReleaseMessage)
+	call = e.NewCall("download", 0, nil, 60*time.Second)
+	e.Start(call, func(ctx context.Context) (*pool.Message, error) {
+		if withBody {
+			return w.API.(mux.Conn).Post(ctx, "/big", message.TextPlain, bytes.NewReader(reqBody))
+		}
+		return w.API.Get(ctx, "/big")
+	}, w.API.ReleaseMessage)
 	e.Wait()
 	w.Pump()
 	for step := 0; step < 80 && e.Budget() && !call.Done(); step++ {
@@ -160,11 +188,46 @@ func c04ScriptedDownload(e *Env) {
 		}
 		w.Step(evs)
 	}
+	if call.Done() && reqTok != nil {
+		// late duplicates of blocks of the finished (or failed) exchange arrive: they must not set anything in motion
+		for i := 0; i < 1+t.Choose(2); i++ {
+			num := uint32(1 + t.Choose(nBlocks-1))
+			lo := int(num) * bs
+			if lo >= len(cur) {
+				continue
+			}
+			hi := min(lo+bs, len(cur))
+			e.Fault("block.staleAfterCompletion")
+			it := w.Queue(&WMsg{Type: TNON, Code: 0x45, MID: w.NextPeerMID(), Token: reqTok, Opts: []WOpt{{Num: OptETag, Val: etag}, UintOpt(OptBlock2, BlockOpt(num, hi < len(cur), uint32(szx)))}, Payload: cur[lo:hi]}, fmt.Sprintf("stale block %d after the call returned", num))
+			e.Logf("peer->ep %s", it.Label)
+			w.Emit(it, false)
+			e.Wait()
+			w.Pump()
+		}
+		// whatever the connection asks for now is served as before
+		for i := 0; i < 30; i++ {
+			evs := w.Events(6)
+			if len(evs) == 0 {
+				break
+			}
+			w.Step(evs)
+		}
+	}
 	e.Sleep(70 * time.Second)
 	w.Pump()
 	if !call.Done() {
 		e.Violate("C04.R5", "transfer-hangs:scripted-download", "the download has not returned 10 s after its 60 s deadline")
 		return
+	}
+	// after the exchange ended the blocks of the stale duplicates must not have set a new transfer in motion whose
+	// result is then handed to the application a second time, through the connection's handler
+	e.mu.Lock()
+	st := append([]*RespInfo(nil), strays...)
+	e.mu.Unlock()
+	for _, x := range st {
+		if bytes.Equal(x.Payload, v1) || bytes.Equal(x.Payload, v2) {
+			e.Violate("C04.R2", "body-handed-over-twice:scripted-download", "the complete body (%d bytes) was handed to the connection's handler in addition to the call", len(x.Payload))
+		}
 	}
 	resp, err := call.Result()
 	if err != nil || resp == nil || resp.Code != 0x45 {
